@@ -568,13 +568,15 @@ Definition cons_text (t : xstr) (l : list xnode) : list xnode :=
   end.
 
 (** one element, [s] starts after its '<'.  [content] parses the children up to and including
-    the end tag.  Results carry the number of namespace declarations seen. *)
-Definition parse_element_with
+    the end tag; [fa] is the fuel of the attribute loop (the caller's own fuel, which exceeds the
+    length of [s]; computing that length here would make the parser quadratic).  Results carry
+    the number of namespace declarations seen. *)
+Definition parse_element_with (fa : nat)
     (content : list xnsdecl -> xstr -> xstr -> list N -> pres (list xnode * N * list N))
     (pscope : option (list xnsdecl)) (s : list N) : pres (xnode * N * list N) :=
   do '(prefix, local, r) <- of_opt (scan_qname s);
   if xstr_eqb prefix s_xmlns then PErr else
-  do '(raw, e, rest) <- parse_attrs (S (length r)) r;
+  do '(raw, e, rest) <- parse_attrs fa r;
   do '(own, plain) <- of_opt (split_attrs raw [] []);
   let scope := resolve_scope pscope own in
   do attrs <- of_opt (resolve_attrs scope plain []);
@@ -627,7 +629,7 @@ Fixpoint parse_content (fuel : nat) (scope : list xnsdecl) (pprefix plocal : xst
             | _ => PErr
             end
           else
-            do '(n, c1, rest) <- parse_element_with (parse_content f) (Some scope) r;
+            do '(n, c1, rest) <- parse_element_with f (parse_content f) (Some scope) r;
             do '(ch, c2, rest') <- parse_content f scope pprefix plocal rest;
             POk (n :: ch, c1 + c2, rest')
         end
@@ -641,7 +643,7 @@ Fixpoint parse_content (fuel : nat) (scope : list xnsdecl) (pprefix plocal : xst
   end.
 
 Definition parse_element (fuel : nat) (pscope : option (list xnsdecl)) (s : list N) :=
-  parse_element_with (parse_content fuel) pscope s.
+  parse_element_with fuel (parse_content fuel) pscope s.
 
 (** * The document *)
 Definition s_bom : list N := [0xEF; 0xBB; 0xBF].
